@@ -198,6 +198,18 @@ where
 }
 
 /// Returns a Vec of deduped EventIds that appear in some chains but not others.
+/// Verification hook: the split of state sets into unconflicted and conflicted state done by `resolve`.
+#[cfg(ruma_verif)]
+#[doc(hidden)]
+pub fn verif_separate<'a, Id>(
+    state_sets_iter: impl Iterator<Item = &'a StateMap<Id>>,
+) -> (StateMap<Id>, StateMap<Vec<Id>>)
+where
+    Id: Clone + Eq + Hash + 'a,
+{
+    separate(state_sets_iter)
+}
+
 /// Verification hook: the auth chain difference computed by `resolve`.
 #[cfg(ruma_verif)]
 #[doc(hidden)]
